@@ -35,11 +35,25 @@ def tlc_run(spec: str, cfg: str, dump: bool = False, workers: int = 4, timeout: 
             "distinct": int(m.group(2)) if m else 0,
             "depth": int(dm.group(1)) if dm else 0,
             "tail": out[-1500:],
-            "dot": open(dot_path).read() if dump and os.path.exists(dot_path) else None,
+            "dot": compact(open(dot_path).read()) if dump and os.path.exists(dot_path) else None,
         }
         return res
     finally:
         shutil.rmtree(tmp, ignore_errors=True)
+
+
+def compact(dot: str) -> str:
+    """Keep only what the NFA needs: edge lines (without styling) and the initial-state marker lines."""
+    out = []
+    for line in dot.splitlines():
+        m = re.match(r'\s*(-?\d+) -> (-?\d+) \[label="([^"]*)"', line)
+        if m:
+            out.append(f'{m.group(1)} -> {m.group(2)} [label="{m.group(3)}"]')
+            continue
+        m = re.match(r'\s*(-?\d+) \[label=.*style = filled\]', line)
+        if m:
+            out.append(f'{m.group(1)} [label="init",style = filled]')
+    return "\n".join(out)
 
 
 class Graph:
